@@ -147,6 +147,10 @@ class ProbDetGrammar(TaggedDetGrammar[float, U, V, W]):
         program: Program,
         start: Optional[Tuple[Type, U]] = None,
     ) -> float:
+        if not self.__contains_rec__(
+            program, start or self.start, self.start_information()
+        )[0]:
+            return 0
         try:
             return self.reduce_derivations(
                 lambda current, S, P, _: current * self.tags[S][P],
